@@ -47,7 +47,8 @@ def load():
     src = src_dir()
     if not os.path.isdir(os.path.join(src, "pyfvtool")):
         raise RuntimeError("no pyfvtool package under %s" % src)
-    sys.path.insert(0, src)
+    if src not in sys.path[:1]:
+        sys.path.insert(0, src)
     import pyfvtool  # noqa
     got = os.path.realpath(os.path.dirname(pyfvtool.__file__))
     want = os.path.join(src, "pyfvtool")
@@ -55,6 +56,19 @@ def load():
         raise RuntimeError("pyfvtool imported from %s, wanted %s" % (got, want))
     _pf = pyfvtool
     return _pf
+
+
+def reset():
+    """Forget the imported library and import it afresh: module-level caches,
+    mutable default arguments and class attributes inside PyFVTool are back to
+    their import-time state.  Called at the start of every chunk of runs, so that
+    what a run sees depends on the earlier runs of its own chunk only (which are
+    recorded with a violation), exactly as in a fresh interpreter."""
+    global _pf
+    for k in [k for k in sys.modules if k == "pyfvtool" or k.startswith("pyfvtool.")]:
+        del sys.modules[k]
+    _pf = None
+    return load()
 
 
 def pdesolver_module():
